@@ -49,7 +49,7 @@ func runSeeds(t *testing.T, property, check string, st *Stats) {
 	for _, c := range cases {
 		c.Property = property
 		st.Class("regression_cases")
-		if msg := fn(c, st); msg != "" {
+		if msg := safeRun(fn, c, st); msg != "" {
 			Fail(t, c, "regression case: %s", msg)
 		}
 	}
